@@ -550,34 +550,42 @@ def malformed_cases(rng, tier: str) -> list:
 # fresh interpreters
 
 def run_children(cases: list, seeds: list) -> dict:
-    """{seed: [result, ...]}; every child rebuilds every case from its description"""
+    """{seed: result}; every child interpreter rebuilds every case from its description.
+    Payload, stdout and stderr go through temporary files (a pipe would fill up and stall)."""
+    import tempfile
     env0 = dict(os.environ)
-    payload = json.dumps({'cases': cases})
     procs = {}
     results = {}
     pending = list(seeds)
     max_par = min(8, max(1, (os.cpu_count() or 2) // 2))
     root = str(util.__file__).rsplit('/harness/', 1)[0]
-    while pending or procs:
-        while pending and len(procs) < max_par:
-            seed = pending.pop(0)
-            env = dict(env0, PYTHONHASHSEED=str(seed), PYTHONWARNINGS='ignore')
-            p = subprocess.Popen([sys.executable, '-m', 'harness.gen.cachekey'], cwd=root, env=env,
-                                 stdin=subprocess.PIPE, stdout=subprocess.PIPE, stderr=subprocess.PIPE, text=True)
-            p.stdin.write(payload)
-            p.stdin.close()
-            procs[seed] = p
-        for seed, p in list(procs.items()):
-            if p.poll() is None:
-                continue
-            out = p.stdout.read()
-            err = p.stderr.read()
-            del procs[seed]
-            line = [l for l in out.splitlines() if l.startswith('C16CHILD ')]
-            if p.returncode != 0 or not line:
-                raise RuntimeError(f'child interpreter (PYTHONHASHSEED={seed}) failed: rc={p.returncode}\n{err[-1500:]}')
-            results[seed] = json.loads(line[0][len('C16CHILD '):])
-        time.sleep(0.02)
+    with tempfile.TemporaryDirectory(prefix='verif_c16_children_') as tmp:
+        payload = os.path.join(tmp, 'cases.json')
+        with open(payload, 'w') as f:
+            json.dump({'cases': cases}, f)
+        while pending or procs:
+            while pending and len(procs) < max_par:
+                seed = pending.pop(0)
+                env = dict(env0, PYTHONHASHSEED=str(seed), PYTHONWARNINGS='ignore')
+                fout = open(os.path.join(tmp, f'out_{seed}'), 'w+')
+                ferr = open(os.path.join(tmp, f'err_{seed}'), 'w+')
+                p = subprocess.Popen([sys.executable, '-m', 'harness.gen.cachekey'], cwd=root, env=env,
+                                     stdin=open(payload), stdout=fout, stderr=ferr, text=True)
+                procs[seed] = (p, fout, ferr)
+            for seed, (p, fout, ferr) in list(procs.items()):
+                if p.poll() is None:
+                    continue
+                del procs[seed]
+                fout.seek(0)
+                ferr.seek(0)
+                out, err = fout.read(), ferr.read()
+                fout.close()
+                ferr.close()
+                line = [l for l in out.splitlines() if l.startswith('C16CHILD ')]
+                if p.returncode != 0 or not line:
+                    raise RuntimeError(f'child interpreter (PYTHONHASHSEED={seed}) failed: rc={p.returncode}\n{err[-1500:]}')
+                results[seed] = json.loads(line[0][len('C16CHILD '):])
+            time.sleep(0.02)
     return results
 
 
@@ -636,8 +644,12 @@ def run(ctx) -> None:
     probe_bases = [c for c in bases[:ctx.budget(5, 20)]]
     raw_attr_dicts = []
     for bcase in probe_bases:
-        for probe in ['fresh_attrs', 'netcdf', 'pickle', 'copy_alive']:
-            res = run_probe(bcase, probe)
+        for probe in ['fresh_attrs', 'netcdf', 'pickle', 'copy_alive', 'mfdataset']:
+            try:
+                res = run_probe(bcase, probe)
+            except Exception as ex:  # e.g. a dataset xarray cannot write
+                ctx.count(f'n/a:probe:{probe}:{type(ex).__name__}')
+                continue
             raw_attr_dicts += res.pop('attr_dicts', [])
             ctx.count(f'probe:{probe}')
             ctx.evaluated()
@@ -645,6 +657,12 @@ def run(ctx) -> None:
                 continue
             ctx.nontrivial(('probe', probe, json.dumps(bcase['recipe'], sort_keys=True)[:200]))
             if res['same_geometry'] and res['key_a'] != res['key_b']:
+                if res.get('encoding_dtype_differs'):
+                    ctx.oracle_fail(SIG_ENC, {'probe': probe, 'case': res['case']},
+                                    f"the same data opened from one file and from two files (open_mfdataset): names, dtypes, "
+                                    f"shapes, values and attributes are equal, keys differ {res['key_a'][:16]}… != "
+                                    f"{res['key_b'][:16]}…; encoding['dtype'] (single, multi-file) = {res['detail']}")
+                    continue
                 ctx.oracle_fail(SIG_F10 if res['flags'] else 'cache-key-equal-geometry-different-key',
                                 {'probe': probe, 'case': res['case']},
                                 f"{probe}: names, dtypes, shapes, values and attributes are equal, keys differ "
@@ -840,6 +858,8 @@ def run_probe(bcase: dict, probe: str) -> dict:
     """Two datasets with the same geometry content whose attribute objects were made differently."""
     from emsarray.operations.cache import make_cache_key
     case_a = dict(bcase, stabilise=False, netcdf=False)
+    if probe == 'mfdataset':
+        return run_mfdataset_probe(bcase)
     if probe == 'copy_alive':
         # the SAME dataset object, before and after a shallow copy of it exists
         case_a = dict(bcase, stabilise=False, netcdf=True)
@@ -862,6 +882,45 @@ def run_probe(bcase: dict, probe: str) -> dict:
             'flags': flags_only_difference(a, b),
             'attr_dicts': [{k: v for k, v in e.ds.variables[n].attrs.items() if isinstance(v, str)}
                            for e in (a, b) for n in e.state['expected'][:2]]}
+
+
+def run_mfdataset_probe(bcase: dict) -> dict:
+    """The same data written to one file and to two files split along time: opened with open_dataset and with
+    open_mfdataset.  Both datasets are stabilised, so that F10 has no part in the comparison."""
+    import tempfile
+    import xarray as xr
+    from emsarray.operations.cache import make_cache_key
+    case = dict(bcase, stabilise=False, netcdf=False)
+    ds, state, built = K.materialise(case)
+    ds = ds.copy()
+    for var in ds.variables.values():
+        if '_FillValue' in var.attrs:
+            var.encoding['_FillValue'] = var.attrs.pop('_FillValue')
+    if 'time' in ds.dims:
+        ds = ds.drop_dims('time')
+    gdims, gshape = built.grids[built.default_kind]
+    ds = ds.assign_coords(time=xr.Variable(['time'], np.arange(4.0), attrs={'units': 'days since 2000-01-01'}))
+    ds['eta'] = xr.Variable(('time',) + tuple(gdims), np.zeros((4,) + tuple(gshape)))
+    with tempfile.TemporaryDirectory(prefix='verif_c16_mf_') as tmp:
+        paths = [os.path.join(tmp, n) for n in ('all.nc', 'a.nc', 'b.nc')]
+        ds.to_netcdf(paths[0])
+        ds.isel(time=slice(0, 2)).to_netcdf(paths[1])
+        ds.isel(time=slice(2, 4)).to_netcdf(paths[2])
+        with xr.open_dataset(paths[0], decode_times=False) as f:
+            one = f.load()
+        with xr.open_mfdataset(paths[1:], data_vars=['eta'], decode_times=False) as f:
+            many = f.load()
+    out = []
+    for d in (one, many):
+        K.stabilise(d)
+        st = json.loads(json.dumps(state))
+        K.make_convention(d, st)
+        out.append((make_cache_key(d), geometry_content(d, st),
+                    {n: getattr(d.variables[n].encoding.get('dtype'), 'name', None) for n in st['expected']}))
+    enc_differs = [n for n in out[0][2] if out[0][2][n] != out[1][2][n]]
+    return {'case': case, 'same_geometry': out[0][1] == out[1][1], 'key_a': out[0][0], 'key_b': out[1][0],
+            'flags': [], 'encoding_dtype_differs': enc_differs,
+            'detail': {n: (out[0][2][n], out[1][2][n]) for n in enc_differs}}
 
 
 # --------------------------------------------------------------------------
